@@ -46,9 +46,9 @@ variable (chosen M)
 /-- Consumer contract.  `A`: structural predicate on the accumulator; `n`: number of clause variables; `key`: which
     bucket of the accumulator a clause assignment belongs to; `den acc ρ x`: value of bucket `x`; `G`: a guard (the
     conjuncts to the left); `Q`: what else must hold of the assignment (the conjuncts to the right). -/
-def SinkSem {α κ : Type} (A : α → Nat → Prop) (n : Nat) (key : List Const → κ) (den : α → (Nat → Bool) → κ → Bool)
+def SinkSem {α κ : Type} (A : α → Nat → Prop) (n : Nat) (ctx0 : Ctx) (key : List Const → κ) (den : α → (Nat → Bool) → κ → Bool)
     (G : (Nat → Bool) → Bool) (Q : List Const → Prop) (sink : Sink α) : Prop :=
-  ∀ ctx k acc st acc' st', ctx.length = n → SemInv chosen M st → A acc st.store.nodes.length →
+  ∀ ctx k acc st acc' st', ctx.length = n → Refines ctx0 ctx → SemInv chosen M st → A acc st.store.nodes.length →
     keyBelow st.store.nodes.length k → sink ctx k (acc, st) = .ok (acc', st') →
     SemInv chosen M st' ∧ Grows st.store st'.store ∧ A acc' st'.store.nodes.length ∧
     ∀ ρ, Val chosen st'.store ρ → ∀ x, (den acc' ρ x = true ↔
@@ -68,8 +68,8 @@ variable {chosen M}
 
 theorem feed_sem {α κ : Type} {A : α → Nat → Prop} (hA : ∀ a n m, n ≤ m → A a n → A a m) {n : Nat}
     {key : List Const → κ} {den : α → (Nat → Bool) → κ → Bool} {G : (Nat → Bool) → Bool} {Q : List Const → Prop}
-    {sink : Sink α} (U : UnifOK) (hsink : SinkSem chosen M A n key den G Q sink) (args : List Val) (ctx : Ctx)
-    (hlen : ctx.length = n) :
+    {sink : Sink α} (U : UnifOK) {ctx0 : Ctx} (hsink : SinkSem chosen M A n ctx0 key den G Q sink) (args : List Val)
+    (ctx : Ctx) (hlen : ctx.length = n) (href : Refines ctx0 ctx) :
     ∀ (rs : Results) (acc : α) (st : St) (acc' : α) (st' : St), SemInv chosen M st → A acc st.store.nodes.length →
       KeysBelow st.store.nodes.length rs → feed sink args ctx rs (acc, st) = .ok (acc', st') →
       SemInv chosen M st' ∧ Grows st.store st'.store ∧ A acc' st'.store.nodes.length ∧
@@ -89,7 +89,7 @@ theorem feed_sem {α κ : Type} {A : α → Nat → Prop} (hA : ∀ a n m, n ≤
     split at h
     · -- FALSE node: no result
       rename_i hf
-      obtain ⟨h1, h2, h3, h4⟩ := feed_sem hA U hsink args ctx hlen r acc st acc' st' hs ha hkr h
+      obtain ⟨h1, h2, h3, h4⟩ := feed_sem hA U hsink args ctx hlen href r acc st acc' st' hs ha hkr h
       refine ⟨h1, h2, h3, fun ρ hρ x => ?_⟩
       rw [h4 ρ hρ x]
       have hkf : keyVal ρ k = false := by
@@ -107,7 +107,7 @@ theorem feed_sem {α κ : Type} {A : α → Nat → Prop} (hA : ∀ a n m, n ≤
     · split at h
       · -- the answer does not fit the call
         rename_i hb
-        obtain ⟨h1, h2, h3, h4⟩ := feed_sem hA U hsink args ctx hlen r acc st acc' st' hs ha hkr h
+        obtain ⟨h1, h2, h3, h4⟩ := feed_sem hA U hsink args ctx hlen href r acc st acc' st' hs ha hkr h
         refine ⟨h1, h2, h3, fun ρ hρ x => ?_⟩
         rw [h4 ρ hρ x]
         constructor
@@ -127,8 +127,8 @@ theorem feed_sem {α κ : Type} {A : α → Nat → Prop} (hA : ∀ a n m, n ≤
           obtain ⟨acc1, st1⟩ := w1
           rw [hsk] at h
           have hl' : ctx'.length = n := by rw [U.bind_len _ _ _ _ hb]; exact hlen
-          obtain ⟨s1, g1, a1, d1⟩ := hsink ctx' k acc st acc1 st1 hl' hs ha (hk (ans, k) List.mem_cons_self) hsk
-          obtain ⟨s2, g2, a2, d2⟩ := feed_sem hA U hsink args ctx hlen r acc1 st1 acc' st' s1 a1
+          obtain ⟨s1, g1, a1, d1⟩ := hsink ctx' k acc st acc1 st1 hl' (href.trans (fun τ' => (U.bind_fwd _ _ _ _ hb τ').imp (fun _ h => h.2))) hs ha (hk (ans, k) List.mem_cons_self) hsk
+          obtain ⟨s2, g2, a2, d2⟩ := feed_sem hA U hsink args ctx hlen href r acc1 st1 acc' st' s1 a1
             (hkr.mono (grows_length g1)) h
           refine ⟨s2, g1.trans g2, a2, fun ρ hρ x => ?_⟩
           rw [d2 ρ hρ x, d1 ρ (hρ.of_grows g2) x]
@@ -162,8 +162,9 @@ theorem any_const {l : List Key} {ρ : Nat → Bool} {v : Bool} (hne : l ≠ [])
 
 theorem evalItem_sem {α κ : Type} {A : α → Nat → Prop} (hA : ∀ a n m, n ≤ m → A a n → A a m) {n : Nat}
     {key : List Const → κ} {den : α → (Nat → Bool) → κ → Bool} {G : (Nat → Bool) → Bool} {Q : List Const → Prop}
-    {sink : Sink α} (U : UnifOK) (P : Prog) {ev : Eval} (hev : EvalSem chosen M ev)
-    (hsink : SinkSem chosen M A n key den G Q sink) (i : Item) (ctx : Ctx) (hlen : ctx.length = n)
+    {sink : Sink α} (U : UnifOK) (P : Prog) {ev : Eval} (hev : EvalSem chosen M ev) {ctx0 : Ctx}
+    (hsink : SinkSem chosen M A n ctx0 key den G Q sink) (i : Item) (ctx : Ctx) (hlen : ctx.length = n)
+    (href : Refines ctx0 ctx)
     (hr : Item.inRange n i) (acc : α) (st : St) (acc' : α) (st' : St) (hs : SemInv chosen M st)
     (ha : A acc st.store.nodes.length) (h : evalItem P ev sink i ctx (acc, st) = .ok (acc', st')) :
     StepSem chosen M A key den G Q (fun θ => itemTrueFO P.nconsts chosen M θ i) ctx (acc, st) (acc', st') := by
@@ -182,7 +183,7 @@ theorem evalItem_sem {α κ : Type} {A : α → Nat → Prop} (hA : ∀ a n m, n
       simp only at h hs1 hg1 hf1 hd1
       rw [hf1] at h
       simp only [Bool.false_eq_true, if_false] at h
-      obtain ⟨s2, g2, a2, d2⟩ := hsink ctx g acc { st with store := S1 } acc' st' hlen (hs.store_step hs1 hg1)
+      obtain ⟨s2, g2, a2, d2⟩ := hsink ctx g acc { st with store := S1 } acc' st' hlen href (hs.store_step hs1 hg1)
         (hA _ _ _ (grows_length hg1) ha) hd1.1 h
       refine ⟨s2, hg1.trans g2, a2, fun ρ hρ x => ?_⟩
       rw [d2 ρ hρ x]
@@ -203,7 +204,7 @@ theorem evalItem_sem {α κ : Type} {A : α → Nat → Prop} (hA : ∀ a n m, n
     cases l with
     | tt =>
       simp only [evalItem] at h
-      obtain ⟨s2, g2, a2, d2⟩ := hsink ctx TRUE acc st acc' st' hlen hs ha (Nat.zero_le _) h
+      obtain ⟨s2, g2, a2, d2⟩ := hsink ctx TRUE acc st acc' st' hlen href hs ha (Nat.zero_le _) h
       refine ⟨s2, g2, a2, fun ρ hρ x => ?_⟩
       rw [d2 ρ hρ x]
       constructor
@@ -222,7 +223,7 @@ theorem evalItem_sem {α κ : Type} {A : α → Nat → Prop} (hA : ∀ a n m, n
         obtain ⟨rs, st1⟩ := r
         rw [hev1] at h
         obtain ⟨hs1, hg1, hres⟩ := hev _ _ _ _ hs hev1
-        obtain ⟨s2, g2, a2, d2⟩ := feed_sem hA U hsink (a.args.map (Term.val ctx)) ctx hlen rs acc st1 acc' st' hs1
+        obtain ⟨s2, g2, a2, d2⟩ := feed_sem hA U hsink (a.args.map (Term.val ctx)) ctx hlen href rs acc st1 acc' st' hs1
           (hA _ _ _ (grows_length hg1) ha) hres.keys h
         refine ⟨s2, hg1.trans g2, a2, fun ρ hρ x => ?_⟩
         rw [d2 ρ hρ x]
@@ -269,7 +270,7 @@ theorem evalItem_sem {α κ : Type} {A : α → Nat → Prop} (hA : ∀ a n m, n
           generalize hF : rs.filter (fun r => !Formula.isFalse r.2) = F at h
           match F, hF, h with
           | [], hF, h =>
-            obtain ⟨s2, g2, a2, d2⟩ := hsink ctx TRUE acc st1 acc' st' hlen hs1 ha1 (Nat.zero_le _) h
+            obtain ⟨s2, g2, a2, d2⟩ := hsink ctx TRUE acc st1 acc' st' hlen href hs1 ha1 (Nat.zero_le _) h
             refine ⟨s2, hg1.trans g2, a2, fun ρ hρ x => ?_⟩
             rw [d2 ρ hρ x]
             have hMf : M a.pred cs = false := by
@@ -332,7 +333,7 @@ theorem evalItem_sem {α κ : Type} {A : α → Nat → Prop} (hA : ∀ a n m, n
                   have ht' : (!M a.pred (a.args.map (Term.ground (gl τ ctx)))) = true := ht
                   rw [hargs τ, ← hsem2 ρ hρ, ← GroundEval.negate_keyVal, (GroundEval.isFalse_iff _).1 hfn] at ht'
                   cases ht'
-              · obtain ⟨s3, g3, a3, d3⟩ := hsink ctx (negate k') acc { st1 with store := S2 } acc' st' hlen hst2 ha2
+              · obtain ⟨s3, g3, a3, d3⟩ := hsink ctx (negate k') acc { st1 with store := S2 } acc' st' hlen href hst2 ha2
                   (keyBelow_negate _ _ hb2) h
                 refine ⟨s3, (hg1.trans hg2).trans g3, a3, fun ρ hρ x => ?_⟩
                 rw [d3 ρ hρ x]
@@ -356,22 +357,23 @@ theorem evalItem_sem {α κ : Type} {A : α → Nat → Prop} (hA : ∀ a n m, n
 theorem evalItems_sem {α κ : Type} (U : UnifOK) (P : Prog) {ev : Eval} (hev : EvalSem chosen M ev) {n : Nat}
     {key : List Const → κ} {den : α → (Nat → Bool) → κ → Bool} :
     ∀ (is : List Item) (A : α → Nat → Prop), (∀ a n m, n ≤ m → A a n → A a m) →
-      ∀ (G : (Nat → Bool) → Bool) (Q : List Const → Prop) (sink : Sink α), SinkSem chosen M A n key den G Q sink →
-      ∀ (ctx : Ctx), ctx.length = n → (∀ i ∈ is, Item.inRange n i) →
+      ∀ (G : (Nat → Bool) → Bool) (Q : List Const → Prop) (sink : Sink α) (ctx0 : Ctx),
+      SinkSem chosen M A n ctx0 key den G Q sink →
+      ∀ (ctx : Ctx), ctx.length = n → Refines ctx0 ctx → (∀ i ∈ is, Item.inRange n i) →
       ∀ (acc : α) (st : St) (acc' : α) (st' : St), SemInv chosen M st → A acc st.store.nodes.length →
         evalItems P ev is sink ctx (acc, st) = .ok (acc', st') →
         StepSem chosen M A key den G Q (fun θ => is.all (itemTrueFO P.nconsts chosen M θ)) ctx (acc, st) (acc', st')
-  | [], _, _, _, _, _, _, _, _, _, _, _, _, _, _, _, h => by simp [evalItems] at h
-  | [i], A, hA, G, Q, sink, hsink, ctx, hlen, hr, acc, st, acc', st', hs, ha, h => by
+  | [], _, _, _, _, _, _, _, _, _, _, _, _, _, _, _, _, _, h => by simp [evalItems] at h
+  | [i], A, hA, G, Q, sink, ctx0, hsink, ctx, hlen, href, hr, acc, st, acc', st', hs, ha, h => by
     simp only [evalItems] at h
-    obtain ⟨s1, g1, a1, d1⟩ := evalItem_sem hA U P hev hsink i ctx hlen (hr i List.mem_cons_self) acc st acc' st' hs ha h
+    obtain ⟨s1, g1, a1, d1⟩ := evalItem_sem hA U P hev hsink i ctx hlen href (hr i List.mem_cons_self) acc st acc' st' hs ha h
     refine ⟨s1, g1, a1, fun ρ hρ x => ?_⟩
     rw [d1 ρ hρ x]
     simp only [List.all_cons, List.all_nil, Bool.and_true]
-  | i :: j :: rest, A, hA, G, Q, sink, hsink, ctx, hlen, hr, acc, st, acc', st', hs, ha, h => by
+  | i :: j :: rest, A, hA, G, Q, sink, ctx0, hsink, ctx, hlen, href, hr, acc, st, acc', st', hs, ha, h => by
     simp only [evalItems] at h
     have hrr : ∀ i' ∈ j :: rest, Item.inRange n i' := fun i' hi' => hr i' (List.mem_cons_of_mem _ hi')
-    have hsi : SinkSem chosen M A n key den G
+    have hsi : SinkSem chosen M A n ctx0 key den G
         (fun θ => (j :: rest).all (itemTrueFO P.nconsts chosen M θ) = true ∧ Q θ)
         (fun ctx1 k1 w1 =>
           if Formula.isFalse k1 = true then pure w1
@@ -379,7 +381,7 @@ theorem evalItems_sem {α κ : Type} (U : UnifOK) (P : Prog) {ev : Eval} (hev : 
             | (acc2, st2) => do
               let (S3, k) ← liftF (st2.store.addAnd [k1, k2])
               sink ctx2 k (acc2, { st2 with store := S3 })) ctx1 w1) := by
-      intro ctx1 k1 acc1 st1 acc1' st1' hl1 hs1 ha1 hk1 h1
+      intro ctx1 k1 acc1 st1 acc1' st1' hl1 href1 hs1 ha1 hk1 h1
       simp only at h1
       split at h1
       · rename_i hf
@@ -389,13 +391,13 @@ theorem evalItems_sem {α κ : Type} (U : UnifOK) (P : Prog) {ev : Eval} (hev : 
         rcases h with h | ⟨_, hk, _⟩
         · exact h
         · rw [(GroundEval.isFalse_iff k1).1 hf] at hk; cases hk
-      · have hinner : SinkSem chosen M (fun a m => A a m ∧ keyBelow m k1) n key den
+      · have hinner : SinkSem chosen M (fun a m => A a m ∧ keyBelow m k1) n ctx0 key den
             (fun ρ => G ρ && keyVal ρ k1) Q
             (fun ctx2 k2 (x : α × St) => match x with
               | (acc2, st2) => do
                 let (S3, k) ← liftF (st2.store.addAnd [k1, k2])
                 sink ctx2 k (acc2, { st2 with store := S3 })) := by
-          intro ctx2 k2 acc2 st2 acc2' st2' hl2 hs2 ha2 hk2 h2
+          intro ctx2 k2 acc2 st2 acc2' st2' hl2 href2 hs2 ha2 hk2 h2
           simp only [bind, Except.bind] at h2
           cases hand : st2.store.addAnd [k1, k2] with
           | error e => rw [hand] at h2; simp [liftF] at h2
@@ -408,7 +410,7 @@ theorem evalItems_sem {α κ : Type} (U : UnifOK) (P : Prog) {ev : Eval} (hev : 
               rcases List.mem_cons.1 hc with h | h
               · rw [h]; exact ha2.2
               · rw [List.mem_singleton.1 h]; exact hk2) hand
-            obtain ⟨s4, g4, a4, d4⟩ := hsink ctx2 k acc2 { st2 with store := S3 } acc2' st2' hl2
+            obtain ⟨s4, g4, a4, d4⟩ := hsink ctx2 k acc2 { st2 with store := S3 } acc2' st2' hl2 href2
               (hs2.store_step hs3 hg3) (hA _ _ _ (grows_length hg3) ha2.1) hb3 h2
             refine ⟨s4, hg3.trans g4, ⟨a4, keyBelow_mono (grows_length (hg3.trans g4)) ha2.2⟩, fun ρ hρ x => ?_⟩
             rw [d4 ρ hρ x]
@@ -426,7 +428,7 @@ theorem evalItems_sem {α κ : Type} (U : UnifOK) (P : Prog) {ev : Eval} (hev : 
               · exact Or.inr ⟨hG, ⟨h1, h2⟩, hτ⟩
         have hA' : ∀ a n m, n ≤ m → (A a n ∧ keyBelow n k1) → (A a m ∧ keyBelow m k1) :=
           fun a n m hnm hh => ⟨hA a n m hnm hh.1, keyBelow_mono hnm hh.2⟩
-        obtain ⟨s5, g5, a5, d5⟩ := evalItems_sem U P hev (j :: rest) _ hA' _ Q _ hinner ctx1 hl1 hrr acc1 st1 acc1' st1'
+        obtain ⟨s5, g5, a5, d5⟩ := evalItems_sem U P hev (j :: rest) _ hA' _ Q _ ctx0 hinner ctx1 hl1 href1 hrr acc1 st1 acc1' st1'
           hs1 ⟨ha1, hk1⟩ h1
         refine ⟨s5, g5, a5.1, fun ρ hρ x => ?_⟩
         rw [d5 ρ hρ x]
@@ -438,7 +440,7 @@ theorem evalItems_sem {α κ : Type} (U : UnifOK) (P : Prog) {ev : Eval} (hev : 
         · rintro (h | ⟨hG, hk, τ, hx, ht, hq⟩)
           · exact Or.inl h
           · exact Or.inr ⟨⟨hG, hk⟩, τ, hx, ht, hq⟩
-    obtain ⟨s1, g1, a1, d1⟩ := evalItem_sem hA U P hev hsi i ctx hlen (hr i List.mem_cons_self) acc st acc' st' hs ha h
+    obtain ⟨s1, g1, a1, d1⟩ := evalItem_sem hA U P hev hsi i ctx hlen href (hr i List.mem_cons_self) acc st acc' st' hs ha h
     refine ⟨s1, g1, a1, fun ρ hρ x => ?_⟩
     rw [d1 ρ hρ x]
     constructor
